@@ -143,6 +143,9 @@ func checkC10(o options) int {
 			unownedSchedule = true
 		}
 	}
+	if !unownedSchedule {
+		os.Setenv("GOMAXPROCS", "1") // single goroutine anyway; makes sync.Pool's per-P caches behave the same in every process
+	}
 	if unownedSchedule {
 		os.Setenv("VERIF_JITTER", "1")
 		logf("census: library code uses goroutines/channels (%d hits): schedule not owned, jitter on, findings may be non-replayable", len(census))
@@ -468,6 +471,23 @@ func checkC10(o options) int {
 			// fresh-process confirmation of exactly the file that is published
 			out, err := run(scratch, nil, inst.bin, "c10-replay", f.replay)
 			reproduced := err != nil && strings.Contains(out, "REPRODUCED class="+f.class)
+			if !reproduced && unownedSchedule {
+				// found, even reduced, but the schedule is not mine: publish what was
+				// seen, flagged as not replayable
+				var rp map[string]interface{}
+				if err := readJSONGeneric(f.replay, &rp); err == nil {
+					rp["class"] = "disagree-unowned-schedule|" + strings.TrimPrefix(f.class, "disagree:")
+					rp["replayable"] = false
+					rp["census"] = census
+					rp["repo_tree"] = repoTree()
+					rp["verif_seed"] = o.seed
+					writeJSONFile(dst, rp)
+				}
+				violationLines = append(violationLines, fmt.Sprintf("VIOLATION property=C10 replay=%s", dst))
+				logf("violation class %s (schedule not owned: not replayable): %s", f.class, f.what)
+				exit = 1
+				continue
+			}
 			if !reproduced && !strings.Contains(f.class, "(unreproduced)") {
 				die(2, "C10: replay of %s did not reproduce class %s in a fresh process (simulator nondeterminism?):\n%s", f.replay, f.class, tail(out, 10))
 			}
